@@ -58,11 +58,17 @@ type c10Info struct {
 	Sess    []*Sess `json:"sess"`
 	NextTag int32   `json:"nextTag"`
 	Dup     bool    `json:"dup"`
+	Events  int     `json:"events"`
 }
 
 func c10State(w *World, h *HistRun) (string, any) {
 	k, ci := cdrState(true)(w, h)
 	info := c10Info{Sess: h.Sess, NextTag: ci.(cdrInfo).NextTag}
+	for _, stp := range h.Steps {
+		if stp.Op.K == "create" && stp.Op.OTE != "" && stp.Resp.Code == 201 {
+			info.Events++
+		}
+	}
 	var ss []string
 	refs := map[string]bool{}
 	for _, se := range h.Sess {
@@ -76,7 +82,7 @@ func c10State(w *World, h *HistRun) (string, any) {
 	}
 	sort.Strings(ss)
 	s := w.Snapshot(false)
-	return fmt.Sprintf("%s|%s|n%d", k, strings.Join(ss, ","), s.LocalSeq), info
+	return fmt.Sprintf("%s|%s|n%d|ev%d", k, strings.Join(ss, ","), s.LocalSeq, info.Events), info
 }
 
 func c10Alphabet(names []string, fill bool) func(raw json.RawMessage, depth int) []Op {
@@ -108,6 +114,18 @@ func c10Alphabet(names []string, fill bool) func(raw json.RawMessage, depth int)
 					c.CID = int32(100 + 10*u + depth)
 					ops = append(ops, c)
 				}
+			}
+		}
+		if info := in; info.Events < 1 && creates > 0 && depth >= 1 {
+			// a one-time event of a subscriber that has open sessions: it opens no session, and the open references stay valid
+			for u := 0; u < 3; u++ {
+				if !have[fmt.Sprintf("%d/%s", u, names[0])] {
+					continue
+				}
+				ev := mkCreate(u, names[0])
+				ev.OTE, ev.CID = "IEC", int32(100+10*u+depth)
+				ops = append(ops, ev)
+				break
 			}
 		}
 		if fill && !filled && creates > 0 {
